@@ -214,7 +214,8 @@ def wellformed(R, size=None):
             d2 = max((p[0] - s[0][0]) ** 2 + (p[1] - s[0][1]) ** 2 for p in s[1:])
             if d2 <= minlen2:
                 fails.append("%s: zero-length segment %d at %s" % (where, i, fmt_pt(s[0])))
-        if n < 2 or (c.is_poly and n < 3):
+        # a single closed cubic (teardrop) and a two-arc lens are legitimate boundaries
+        if n < 1 or (n == 1 and len(c.segs[0]) < 4) or (c.is_poly and n < 3) or (n == 2 and all(len(sg) == 2 for sg in c.segs)):
             fails.append("%s: boundary with %d segments" % (where, n))
             return c
         fails.extend("%s: %s" % (where, m) for m in curve_self_intersections(c))
